@@ -66,7 +66,8 @@ Definition chk_cf (c : cf_case) : bool :=
 Record raster_case := mk_raster_case {
   ra_extent : f4; ra_w : Z; ra_h : Z;
   ra_sn : bool;                                   (* written south-to-north *)
-  ra_transform : f6;                              (* transform of the opened dataset *)
+  ra_written : f6;                                (* transform the raster was written with *)
+  ra_transform : f6;                              (* transform of the opened dataset (GDAL re-derives it for PixelIsPoint files: may differ in the last bit) *)
   ra_bounds : f4;                                 (* dataset.bounds as computed by rasterio *)
   ra_obs_rio : f4; ra_obs_gdal : f4;              (* area_extent returned through the rasterio / gdal branch *)
   ra_obs_w : Z; ra_obs_h : Z;
@@ -74,10 +75,11 @@ Record raster_case := mk_raster_case {
 }.
 Definition chk_raster (c : raster_case) : bool :=
   let a := mka (ra_extent c) (ra_w c) (ra_h c) in
-  let tr := if ra_sn c then area_affine_sn F64 a else area_affine F64 a in
+  let tr0 := if ra_sn c then area_affine_sn F64 a else area_affine F64 a in
+  let tr := ra_transform c in
   let b := raster_load F64 tr (ra_w c) (ra_h c) in                                  (* gdal branch *)
   let b' := rio_load (mk_rio (ra_h c) (ra_w c) (ra_bounds c)) in                    (* rasterio branch on rasterio's own bounds *)
-  f6_same tr (ra_transform c) && negb (rotated F64 tr) && negb (rotated_rio F64 tr) &&
+  f6_same tr0 (ra_written c) && negb (rotated F64 tr) && negb (rotated_rio F64 tr) &&
   f4_same (area_extent b) (ra_bounds c) &&                                          (* H_bounds of C20_rasterio_roundtrip *)
   f4_same (area_extent b') (ra_obs_rio c) && f4_same (area_extent b) (ra_obs_gdal c) &&
   (width b =? ra_obs_w c) && (height b =? ra_obs_h c) && (width b' =? ra_obs_w c) && (height b' =? ra_obs_h c) &&
